@@ -372,6 +372,18 @@ fn fetched_inner(w: &World, st: &Step) -> (SaitoHash, u64, Vec<u8>) {
         }
         "wrong_hash" => (nobody, honest.id, ser(honest)),
         "wrong_id" => (nobody, honest.id + 5, ser(honest)),
+        // an invalid block whose id is the connection number of an honest peer (n = 0: conn 1)
+        "bad_tx_peer_id" => {
+            let mut b = w.remade(i, |txs| {
+                let fee_at = txs.iter().position(|t| t.transaction_type == TransactionType::Fee).unwrap_or(txs.len());
+                txs.insert(fee_at, w.spare_tx(st.n as usize, Some("phantom_input")));
+            });
+            b.id = 1;
+            b.generate_pre_hash();
+            b.sign(&w.creator.private);
+            let _ = b.generate();
+            (b.hash, b.id, ser(&b))
+        }
         "badsig" => {
             let mut b = honest.clone();
             b.signature[7] ^= 1;
@@ -535,8 +547,17 @@ async fn view(f: &FullNode, hostile_conns: &[u64], w: &World) -> Value {
             PeerStatus::Connecting => "connecting",
             PeerStatus::Disconnected(_, _) => "disconnected",
         };
+        // how many rejected blocks this (honest) peer has been charged with: the limiter's counter is private,
+        // its Debug output is not
+        let dbg = format!("{:?}", p.invalid_block_limiter);
+        let charged: u64 = dbg
+            .split("request_count: ")
+            .nth(1)
+            .and_then(|r| r.split(|c: char| !c.is_ascii_digit()).next())
+            .and_then(|d| d.parse().ok())
+            .unwrap_or(0);
         ps.push(json!({"conn": idx, "status": status, "key": p.public_key.map(|k| hex::encode(&k[0..4])).unwrap_or_default(),
-                       "keys": p.key_list.len()}));
+                       "keys": p.key_list.len(), "charged": charged}));
     }
     ps.sort_by_key(|v| v["conn"].as_u64().unwrap());
     let honest_block = |h: &SaitoHash| w.blocks.iter().any(|b| &b.hash == h);
